@@ -2,6 +2,7 @@ import PhyVerif.Model.C14
 import PhyVerif.Model.C08
 import PhyVerif.Lemmas.C08
 import PhyVerif.Lemmas.C09
+import PhyVerif.Lemmas.C09b
 import PhyVerif.Lemmas.C14b
 /-! Proofs for the third part of C14: WHICH ids are blanked (the ids without spikes, computed from the spike
 assignment; composition with C08's `nan_idx`), cluster / spike depths and durations stated on that.
@@ -39,6 +40,12 @@ theorem spikelessIds_eq_nanIdx (st sc : List Nat) (hlen : st.length = sc.length)
   · have h1 : ((C08.mergeMap st sc).getD c []).isEmpty = true := (h.2 ⟨by omega, hm⟩).2
     rw [h1]; simp [hm]
 
+/-- … stated on the model's `nan_idx` (`modelNanIdx`), for a CURATED, non-empty assignment (`_hne`: the domain, the real
+loader takes `max` of the ids; not needed by the proof) -/
+theorem blanked_ids_eq_nanIdx (st sc : List Nat) (hlen : st.length = sc.length) (hcur : sc ≠ st) (_hne : sc ≠ []) :
+    spikelessIds (sc.foldl max 0 + 1) sc = modelNanIdx st sc := by
+  rw [spikelessIds_eq_nanIdx st sc hlen, modelNanIdx, if_neg hcur]
+
 theorem exportClusterDepths_length (ys : List Rat) (peaks sc : List Nat) :
     (exportClusterDepths ys peaks sc).length = peaks.length := by
   simp [exportClusterDepths, clusterDepths]
@@ -71,7 +78,7 @@ theorem getDepths_none_iff (fe : Option Feats) (ys : List Rat) (st : List Nat) :
   | none => simp
   | some f => by_cases h : f.feat0.length = st.length <;> simp [h]
 
-theorem spike_depth_features_eq (f : Feats) (ys : List Rat) (peaks st sc : List Nat)
+theorem spike_depth_features_eq_fold (f : Feats) (ys : List Rat) (peaks st sc : List Nat)
     (hl : f.feat0.length = st.length) (i : Nat) (hi : i < st.length) :
     (exportSpikeDepths (some f) ys peaks st sc).getD i none =
       (let w := (f.feat0.getD i []).map fun x => (max x 0) * (max x 0)
@@ -84,9 +91,56 @@ theorem spike_depth_features_eq (f : Feats) (ys : List Rat) (peaks st sc : List 
   refine ⟨C09.Lemmas.depths_eq f.feat0 f.cols ys st i (hl ▸ hi) hl.symm, ?_⟩
   simp [depths, hl]
 
+/-- the feature-weighted depth of spike `i` as explicit finite sums over the `nloc` local channels, on the domain of the
+BATCH gathers of `get_depths` (model.py:1129-1134): hypotheses for EVERY spike -/
+theorem spike_depth_features_eq (f : Feats) (ys : List Rat) (peaks st sc : List Nat) (nloc : Nat)
+    (hl : f.feat0.length = st.length)
+    (hf : ∀ i, i < st.length → (f.feat0.getD i []).length = nloc)
+    (hst : ∀ i, i < st.length → st.getD i 0 < f.cols.length)
+    (hc : ∀ i, i < st.length → (f.cols.getD (st.getD i 0) []).length = nloc)
+    (hb : ∀ i, i < st.length → ∀ c ∈ f.cols.getD (st.getD i 0) [], c < ys.length)
+    (i : Nat) (hi : i < st.length) :
+    (exportSpikeDepths (some f) ys peaks st sc).getD i none =
+      (let w := fun k => max ((f.feat0.getD i []).getD k 0) 0 * max ((f.feat0.getD i []).getD k 0) 0
+       let y := fun k => ys.getD ((f.cols.getD (st.getD i 0) []).getD k 0) 0
+       if sumTo nloc w = 0 then none else some (sumTo nloc (fun k => y k * w k) / sumTo nloc w)) ∧
+    (exportSpikeDepths (some f) ys peaks st sc).length = st.length := by
+  have e : exportSpikeDepths (some f) ys peaks st sc = depths f.feat0 f.cols ys st := by
+    simp [exportSpikeDepths, getDepths, hl]
+  rw [e]
+  refine ⟨C09.Lemmas.depth_direct f.feat0 f.cols ys st i nloc (hl ▸ hi) hl.symm (hf i hi) (hst i hi) (hc i hi)
+    (hb i hi), ?_⟩
+  simp [depths, hl]
+
 theorem exportSpikeDepths_length_fallback (fe : Option Feats) (ys : List Rat) (peaks st sc : List Nat)
     (hno : getDepths fe ys st = none) : (exportSpikeDepths fe ys peaks st sc).length = sc.length := by
   simp [exportSpikeDepths, hno, spikeDepthsFromClusters]
+
+/-! ### listed channels of every template / cluster -/
+
+theorem exportListedChannels_length (wfs : List Mat) (pos : List (Rat × Rat)) (probes : List Nat) (ncw : Nat) :
+    (exportListedChannels wfs pos probes ncw).length = wfs.length := by
+  simp [exportListedChannels, peakChannels]
+
+theorem exportListedChannels_getD (wfs : List Mat) (pos : List (Rat × Rat)) (probes : List Nat) (ncw t : Nat)
+    (ht : t < wfs.length) :
+    (exportListedChannels wfs pos probes ncw).getD t [] =
+      nearestSameProbe pos probes ((peakChannels wfs).getD t 0) ncw := by
+  have h : t < (peakChannels wfs).length := by simp [peakChannels, ht]
+  simp [exportListedChannels, List.getD_eq_getElem?_getD, h]
+
+-- `_hpr`: the domain (one probe label per channel); the proof does not need it
+theorem listed_channels_of_waveform (wfs : List Mat) (pos : List (Rat × Rat)) (probes : List Nat)
+    (ncw t ns nc : Nat) (ht : t < wfs.length) (hrect : Rect (wfs.getD t []) ns nc) (hns : 0 < ns) (hnc : 0 < nc)
+    (hpos : pos.length = nc) (_hpr : probes.length = pos.length) :
+    IsPeakChannel (wfs.getD t []) nc ((peakChannels wfs).getD t 0) ∧
+    nearestOK pos probes ((peakChannels wfs).getD t 0) ncw
+      ((exportListedChannels wfs pos probes ncw).getD t []) = true ∧
+    (exportListedChannels wfs pos probes ncw).length = wfs.length := by
+  have hpk := (C09.Lemmas.peakChannels_spec wfs t ns nc ht hrect hns hnc).1
+  refine ⟨hpk, ?_, exportListedChannels_length wfs pos probes ncw⟩
+  rw [exportListedChannels_getD wfs pos probes ncw t ht]
+  exact Lemmas.nearest_ok pos probes _ ncw (hpos ▸ hpk.1)
 
 theorem contains_modelNanIdx (st sc : List Nat) (hlen : st.length = sc.length) (c : Nat)
     (hc : sc ≠ st → c ≤ sc.foldl max 0) :
